@@ -138,14 +138,16 @@ const (
 	OpPoolGC
 	OpEngine // RegisterEngine + MustCompile of a registry-hit pattern
 	OpReplaceAt
-	OpMarshalRoundTrip // MarshalText, UnmarshalText into a new Regexp value, match with it
+	OpMarshalRoundTrip     // MarshalText, UnmarshalText into a new Regexp value, match with it
+	OpReplaceFuncReentrant // ReplaceFunc whose evaluator calls the same Regexp (find, replace) for every match
+	OpWalkMixed            // one FindNextMatch walk with other calls on the same Regexp between its steps
 	nOpKinds
 )
 
 var opNames = [...]string{"MatchString", "MatchRunes", "FindStringMatch+walk", "FindRunesMatch+walk", "FindStringMatchStartingAt+walk",
 	"FindRunesMatchStartingAt+walk", "FindAllStringIndex", "FindAllRunesIndex", "Replace", "ReplaceFunc", "Split", "Walk2",
 	"compat.MatchString", "compat.FindStringSubmatchIndex", "compat.FindAllStringSubmatch", "compat.FindAllIndex", "compat.FindReaderSubmatchIndex",
-	"GroupInfo", "Idle", "StopTimeoutClock", "Barrier", "PoolGC", "RegisterEngine+MustCompile", "Replace(startAt)", "MarshalText+UnmarshalText+MatchString"}
+	"GroupInfo", "Idle", "StopTimeoutClock", "Barrier", "PoolGC", "RegisterEngine+MustCompile", "Replace(startAt)", "MarshalText+UnmarshalText+MatchString", "ReplaceFunc(re-entrant evaluator)", "FindNextMatch walk with other calls in between"}
 
 type Op struct {
 	Kind      int       `json:"kind"`
